@@ -11,6 +11,7 @@ package c08
 
 import (
 	"bytes"
+	"crypto/cipher"
 	"crypto/ecdsa"
 	"crypto/ed25519"
 	"crypto/rsa"
@@ -30,6 +31,7 @@ import (
 	"github.com/dapr/kit/byteslicepool"
 	"github.com/dapr/kit/cron"
 	kit "github.com/dapr/kit/crypto"
+	"github.com/dapr/kit/crypto/aescbcaead"
 	"github.com/dapr/kit/logger"
 	enc "github.com/dapr/kit/schemes/enc/v1"
 	"github.com/lestrrat-go/jwx/v2/jwk"
@@ -46,8 +48,12 @@ type phaseEnv struct {
 	pool       *byteslicepool.ByteSlicePool
 	sharedName string
 
-	active            [3]atomic.Int32 // 0: enc, 1: pool, 2: any
-	maxActive         [3]atomic.Int32
+	// EXTRA class: one AEAD object per variant, shared by all aead workers of the phase (in the solo phase every
+	// worker has a phaseEnv, hence AEAD objects, of its own - with the same keys)
+	aeads [4]cipher.AEAD
+
+	active            [actN]atomic.Int32 // 0: enc, 1: pool, 2: any, 3..6: users of the shared AEAD of variant 0..3
+	maxActive         [actN]atomic.Int32
 	sharedMu          sync.Mutex
 	sharedInst        []logger.Logger
 	unwrapWhileOthers atomic.Int64 // unwrap callbacks entered while another enc pipeline was active
@@ -57,7 +63,30 @@ const (
 	actEnc = iota
 	actPool
 	actAny
+	actAead0 // .. actAead0+3
+	actN     = actAead0 + 4
 )
+
+var aeadVariants = []struct {
+	name string
+	key  int
+	mk   func([]byte) (cipher.AEAD, error)
+}{
+	{"A128CBC-HS256", 32, aescbcaead.NewAESCBC128SHA256},
+	{"A192CBC-HS384", 48, aescbcaead.NewAESCBC192SHA384},
+	{"A256CBC-HS384", 56, aescbcaead.NewAESCBC256SHA384},
+	{"A256CBC-HS512", 64, aescbcaead.NewAESCBC256SHA512},
+}
+
+func (e *phaseEnv) makeAeads(keySeed uint64) {
+	for v, av := range aeadVariants {
+		a, err := av.mk(vk.Expand(keySeed^uint64(0x61656164+v), av.key))
+		if err != nil {
+			panic(fmt.Sprintf("harness: %s with a %d-byte key: %v", av.name, av.key, err))
+		}
+		e.aeads[v] = a
+	}
+}
 
 func (e *phaseEnv) enter(which int) {
 	for _, k := range []int{which, actAny} {
@@ -128,6 +157,8 @@ func newWorker(w wspec, idx int, env *phaseEnv, mat *material) worker {
 		return newCronWorker(w, idx, env)
 	case kLog:
 		return newLogWorker(w, idx, env)
+	case kAead:
+		return newAeadWorker(w, idx, env)
 	}
 	panic("harness: unknown worker kind " + w.Kind)
 }
@@ -472,10 +503,111 @@ func newPoolWorker(w wspec, idx int, env *phaseEnv) *poolWorker {
 
 func (p *poolWorker) begin() {}
 
+// poolPutMaxCap: slices larger than this are left to the garbage collector instead of being put back (allowed at any
+// time: nothing obliges a caller to put a slice back). A growing Resize at least doubles the capacity, so without the
+// bound a slice that travels through many keep-workers of a cast would grow exponentially. Resource bound of the
+// harness only: it never enters a result.
+const poolPutMaxCap = 128 << 10
+
+func nonZero(seed uint64, n int) []byte {
+	b := vk.Expand(seed, n)
+	for i := range b { // never zero, so that a zeroed or foreign byte shows
+		b[i] |= 1
+	}
+	return b
+}
+
+// repKeep: the worker goes on using slices it has not put back. What the doc comments allow and nothing else:
+// Get hands out a slice (no promise about its capacity); Resize "makes sure that it has enough capacity for a given
+// size" and, when it has to allocate, "discards the old one, too small, so it can be garbage collected" - it does not
+// consume its argument, so the slice passed in still belongs to the caller (kept for reading, put back later by a
+// `defer pool.Put(buf)` written before the Resize, or dropped). Asserted: every slice the worker holds (the first one,
+// each one a growing Resize returned, a second one taken meanwhile) contains exactly what the worker wrote into it
+// until the worker itself puts it back, and a growing Resize returns the requested length with the old content first.
+// Every slice is put back at most once.
+func (p *poolWorker) repKeep(r int) string {
+	w := p.w
+	type heldSlice struct {
+		b    []byte
+		want []byte
+		what string
+	}
+	pattern := nonZero(w.Seed+uint64(r)*7919, w.Fill)
+	b := p.pool.Get(w.Cap)
+	len0 := len(b)
+	cur := append(b, pattern...)
+	want := bytes.Clone(cur) // a Get of length > 0 differs from the solo run anyway
+	res := fmt.Sprintf("Get len=%d; after fill %s", len0, sum(cur))
+	chain := []heldSlice{{cur, want, "the slice from Get (filled by append)"}}
+	for g := 0; g < w.Grows; g++ {
+		size := cap(cur) + w.Grow // >= capacity: Resize has to allocate
+		next := p.pool.Resize(cur, size)
+		if len(next) != size {
+			res += fmt.Sprintf(" BROKEN: growing Resize %d returned length %d instead of the requested one", g, len(next))
+			break
+		}
+		if !bytes.Equal(next[:len(cur)], want) {
+			res += fmt.Sprintf(" BROKEN: growing Resize %d lost content (first difference at %d of %d)", g, firstDiff(next[:len(cur)], want), len(want))
+		}
+		// the worker writes its own bytes into the whole new part (no zeroing claim about what Resize left there). The
+		// size depends on the capacity Get happened to return, which the doc leaves open, so it does not enter the result.
+		wantNext := make([]byte, size)
+		copy(wantNext, want)
+		tail := wantNext[len(cur):]
+		copy(tail, nonZero(w.Seed+uint64(r)*7919+uint64(g+1)*104729, min(len(tail), 64)))
+		for i := 64; i < len(tail); i++ {
+			tail[i] = tail[i%64]
+		}
+		copy(next[len(cur):], tail)
+		chain = append(chain, heldSlice{next, wantNext, fmt.Sprintf("the slice returned by growing Resize %d", g)})
+		cur, want = next, wantNext
+		yield(1)
+	}
+	res += fmt.Sprintf("; %d growing Resize", len(chain)-1)
+	// the window: other users of the pool Get, fill and Put now
+	w.pause()
+	held := chain
+	var second []byte
+	if w.Second > 0 {
+		wantSecond := nonZero(w.Seed+uint64(r)*7919+15485863, w.Second)
+		s := p.pool.Get(w.Cap)
+		lenS := len(s)
+		second = append(s, wantSecond...)
+		res += fmt.Sprintf("; second Get len=%d after fill %s", lenS, sum(second))
+		held = append(chain[:len(chain):len(chain)], heldSlice{second[lenS:], wantSecond, "the second slice from Get"})
+		w.pause()
+	}
+	for i, h := range held {
+		if !bytes.Equal(h.b, h.want) {
+			res += fmt.Sprintf(" BROKEN: %s (held slice %d of %d, not put back by the worker) changed while the worker held it (first difference at %d of %d)",
+				h.what, i, len(held), firstDiff(h.b, h.want), len(h.want))
+		}
+	}
+	put := func(b []byte) {
+		if cap(b) <= poolPutMaxCap {
+			p.pool.Put(b)
+		}
+	}
+	// the slices that were outgrown: put back now (the deferred-Put idiom), each once, or left to the garbage collector
+	if w.PutOrig {
+		for _, h := range chain[:len(chain)-1] {
+			put(h.b)
+		}
+	}
+	if second != nil {
+		put(second)
+	}
+	put(cur)
+	return res
+}
+
 func (p *poolWorker) rep(r int) string {
 	p.env.enter(actPool)
 	defer p.env.leave(actPool)
 	w := p.w
+	if w.Style == "keep" {
+		return p.repKeep(r)
+	}
 	pattern := vk.Expand(w.Seed+uint64(r)*7919, w.Fill)
 	for i := range pattern { // never zero, so that a zeroed or foreign byte shows
 		pattern[i] |= 1
@@ -681,6 +813,80 @@ func (x *rsaWorker) rep(r int) string {
 	peer, perr := x.spec.Decrypt(x.std, ct, x.label)
 	res += fmt.Sprintf(" | Decrypt err=%v roundTrip=%v | peer err=%v roundTrip=%v", err, bytes.Equal(back, pt), perr, bytes.Equal(peer, pt))
 	return res
+}
+
+// ---------------------------------------------------------------- EXTRA class: one shared AEAD object
+
+// aeadWorker seals and opens its own messages (own nonce, additional data and plaintext) with the AEAD object of its
+// variant that ALL aead workers of the phase share. This is object-level, not package-level, shared state: it is outside
+// the letter of C08 ("independent objects") and kept as a separately labelled class because every cipher.AEAD of the
+// standard library and of x/crypto may be used by several goroutines at once and callers of aescbcaead.NewAESCBC*
+// rely on the same. Oracle as everywhere: the concurrent result equals the worker's solo result (in the solo phase the
+// worker has an AEAD object of its own with the same key).
+type aeadWorker struct {
+	w     wspec
+	env   *phaseEnv
+	a     cipher.AEAD
+	nonce []byte
+	aad   []byte
+	pre   []byte
+}
+
+func newAeadWorker(w wspec, idx int, env *phaseEnv) *aeadWorker {
+	return &aeadWorker{w: w, env: env, a: env.aeads[w.Variant],
+		nonce: vk.Expand(w.Seed^0x6e6f6e6365, 16), aad: vk.Expand(w.Seed^0x616164, w.AadLen), pre: vk.Expand(w.Seed^0x707265, w.Prefix)}
+}
+
+func (x *aeadWorker) begin() {}
+
+func (x *aeadWorker) rep(r int) string {
+	x.env.enter(actAead0 + x.w.Variant)
+	defer x.env.leave(actAead0 + x.w.Variant)
+	// the result: counts, a digest over every iteration's line, and the first line that is not the expected one written out
+	var (
+		all               strings.Builder
+		ok, damaged, dRej int
+		firstOdd          string
+	)
+	for it := 0; it < x.w.Iter; it++ {
+		pt := vk.Expand(x.w.Seed+uint64(r)*104729+uint64(it)*7919, x.w.PtLen)
+		sealed := x.a.Seal(bytes.Clone(x.pre), x.nonce, pt, x.aad)
+		if it%8 == 0 {
+			yield(x.w.Yield)
+		}
+		ct := sealed[min(len(x.pre), len(sealed)):]
+		back, err := x.a.Open(nil, x.nonce, ct, x.aad)
+		good := bytes.HasPrefix(sealed, x.pre) && err == nil && bytes.Equal(back, pt)
+		line := fmt.Sprintf("%d: prefixIntact=%v sealed=%s Open err=%v roundTrip=%v", it, bytes.HasPrefix(sealed, x.pre), sum(ct), err, err == nil && bytes.Equal(back, pt))
+		if good {
+			ok++
+		}
+		// a damaged tag or other additional data must be rejected whatever the others are doing
+		if it%4 == 1 && len(ct) > 0 {
+			bad := bytes.Clone(ct)
+			bad[len(bad)-1-int(x.w.Seed%8)] ^= 0x10
+			_, e1 := x.a.Open(nil, x.nonce, bad, x.aad)
+			_, e2 := x.a.Open(nil, x.nonce, ct, append(bytes.Clone(x.aad), 'x'))
+			line += fmt.Sprintf(" damagedTag err=%v otherAAD err=%v", e1, e2)
+			damaged += 2
+			if e1 != nil {
+				dRej++
+			}
+			if e2 != nil {
+				dRej++
+			}
+			good = good && e1 != nil && e2 != nil
+		}
+		if !good && firstOdd == "" {
+			firstOdd = " first unexpected iteration: " + line
+		}
+		all.WriteString(line + "\n")
+	}
+	if x.w.SleepUs > 0 && r%2 == 0 {
+		time.Sleep(time.Duration(x.w.SleepUs) * time.Microsecond)
+	}
+	return fmt.Sprintf("%s shared-AEAD: iterations=%d roundTrips=%d forgeriesRejected=%d/%d digest=%s%s",
+		aeadVariants[x.w.Variant].name, x.w.Iter, ok, dRej, damaged, sum([]byte(all.String())), firstOdd)
 }
 
 // ---------------------------------------------------------------- cron
